@@ -12,6 +12,7 @@ mod e_aspace;
 mod e_nodemgmt;
 mod e_handshake;
 mod e_renew;
+mod e_locks;
 
 use serde_json::Value;
 use std::io::{BufRead, BufReader, BufWriter, Write};
@@ -48,6 +49,7 @@ fn run_case(engine: &str, case: &Value, out: &mut Obs) {
         "nodemgmt" => e_nodemgmt::run_case(case, out),
         "handshake" => e_handshake::run_case(case, out),
         "renew" => e_renew::run_case(case, out),
+        "locks" => e_locks::run_case(case, out),
         _ => {
             eprintln!("unknown engine {}", engine);
             std::process::exit(2);
